@@ -4,7 +4,7 @@
    translator) are exactly the sites of Proofs/KeepP.v: default_sites for values, unit_sites for units.
    So the theorem C05_write_changes_only_defaults speaks about the defaults the source has now: a new write-time
    default, or one that disappears, breaks this obligation. Type indices are those of Gen/Schema.v (the T_ constants of Model/Builder.v). *)
-From DV Require Import Gen.Sites Model.ApiDispatch Proofs.KeepP.
+From DV Require Import Gen.Sites Gen.Order Model.ApiDispatch Proofs.KeepP.
 
 Definition site_eqb (a b : nat * list Z) : bool := Nat.eqb (fst a) (fst b) && list_eqb (snd a) (snd b).
 Definition gen_of (u : bool) : list (nat * list Z) :=
@@ -22,3 +22,9 @@ Proof. vm_compute. reflexivity. Qed.
 Lemma sites_in_schema :
   forallb (fun tn => existsb (fun ad => list_eqb (ad_name ad) (snd tn)) (td_attrs (tdef_at (fst tn)))) (default_sites ++ unit_sites) = true.
 Proof. vm_compute. reflexivity. Qed.
+
+(* D23: the three _run_checks_and_set_defaults methods that derive a dimension call _check_axis_vs_dimension after every
+   statement that can set it (Gen/Order.v, from the syntax trees): the order Write.run_checks has, on which
+   C14_checked_object_passes_the_axis_check_again and C14_checks_and_defaults_are_idempotent rest *)
+Lemma axis_check_last : g_axis_check_last = true.
+Proof. reflexivity. Qed.
